@@ -76,6 +76,12 @@ def trace_line(g, fuel, ws, ds):
 
 
 def run(ctx):
+    _run_main(ctx)
+    import reuse_common
+    reuse_common.reuse_check(ctx, "C07")
+
+
+def _run_main(ctx):
     rng = ctx.rng
     cases = []      # implementation payload
     mlines = []     # model requests
